@@ -148,7 +148,7 @@ TNote == \/ /\ Ev.k = "park" /\ parked' = [parked EXCEPT ![P] = TRUE]
          \/ /\ RwCloses
             /\ rw' = [rw EXCEPT !.open = @ \ {P}]
             /\ UNCHANGED <<snd, cur, lis, adr, parked, drv, cancelled, held, resv, churn, lp>>
-         \/ /\ Ev.k \in {"op", "wake", "panic", "suspended"} /\ ~RwOpens /\ ~RwCloses /\ UNCHANGED vars
+         \/ /\ Ev.k \in {"op", "wake", "panic", "suspended", "slept"} /\ ~RwOpens /\ ~RwCloses /\ UNCHANGED vars
 
 TFinal == Ev.k = "final" /\ UNCHANGED vars
 
